@@ -5,7 +5,9 @@ package xmpp
 
 import (
 	"crypto/tls"
+	"crypto/x509"
 	"fmt"
+	"io"
 	"net/http"
 	"strings"
 	"sync"
@@ -17,13 +19,14 @@ import (
 
 type vfC04Case struct {
 	Insecure   bool   `json:"insecure"`
-	ClientTLS  string `json:"client_tls"`  // nil | rootcas | skipverify
+	ClientTLS  string `json:"client_tls"`  // nil | rootcas | skipverify | rootcas+hook | rootcas+connhook (audit-only verification callbacks)
 	ServerName string `json:"server_name"` // "" | domain | alt
 	Offer      string `json:"offer"`       // absent | offered | required
 	Reply      string `json:"reply"`       // proceed | failure | garbage | close
 	Cert       string `json:"cert"`        // valid | valid-both | otherhost | untrusted | expired | selfsigned
 	Reconnect  bool   `json:"reconnect"`   // a first session with valid TLS precedes; the case describes the second connection
 	Transport  string `json:"transport"`   // tcp | ws | wss
+	Logger     bool   `json:"logger"`      // the traffic logger is switched on (Config.StreamLogger)
 }
 
 const vfC04Domain = "localhost"
@@ -155,6 +158,11 @@ func vfC04ClientTLS(cs *vfC04Case) *tls.Config {
 	switch cs.ClientTLS {
 	case "rootcas":
 		c = &tls.Config{RootCAs: vfGetPKI().Pool}
+	case "rootcas+hook":
+		// an application that audits the chain it was given and never objects: verification itself stays the library's job
+		c = &tls.Config{RootCAs: vfGetPKI().Pool, VerifyPeerCertificate: func([][]byte, [][]*x509.Certificate) error { return nil }}
+	case "rootcas+connhook":
+		c = &tls.Config{RootCAs: vfGetPKI().Pool, VerifyConnection: func(tls.ConnectionState) error { return nil }}
 	case "skipverify":
 		c = &tls.Config{InsecureSkipVerify: true}
 	default:
@@ -174,6 +182,9 @@ func vfC04ClientTLS(cs *vfC04Case) *tls.Config {
 
 func vfC04RunTCP(run *vfkit.Run, cs *vfC04Case) {
 	tag := fmt.Sprintf("%s:%s:%s:%s", cs.Offer, cs.Reply, cs.Cert, cs.ClientTLS)
+	if cs.Logger {
+		tag += ":logged"
+	}
 	if cs.Reconnect {
 		tag = "reconnect:" + tag
 	}
@@ -184,7 +195,10 @@ func vfC04RunTCP(run *vfkit.Run, cs *vfC04Case) {
 		if cs.Reconnect && pc.N == 0 {
 			// a first, perfectly secure session
 			o := &vfNeg{TLS: vfC04ServerTLS("valid-both"), TLSRequired: true, Bind: true, ExpectPresence: true, Domain: vfC04Domain}
-			pc.Negotiate(o)
+			if _, err := pc.Negotiate(o); err != nil {
+				pc.Close() // the client must not be left waiting for a server that has given up
+				return
+			}
 			close(firstReady)
 			<-release
 			pc.Close()
@@ -206,6 +220,10 @@ func vfC04RunTCP(run *vfkit.Run, cs *vfC04Case) {
 		run.Inconclusive("newclient")
 		return
 	}
+	if cs.Logger {
+		c.transport.LogTraffic(io.Discard) // what NewClient does with Config.StreamLogger
+		run.Count("cases_with_traffic_logger", 1)
+	}
 	var cerr error
 	scripted := 0
 	if cs.Reconnect {
@@ -215,7 +233,13 @@ func vfC04RunTCP(run *vfkit.Run, cs *vfC04Case) {
 			run.Note(err.Error())
 			return
 		}
-		<-firstReady
+		select {
+		case <-firstReady:
+		case <-time.After(15 * time.Second):
+			close(release)
+			run.Inconclusive("first-secure-session-not-confirmed-by-peer")
+			return
+		}
 		close(release)
 		if !vfWaitUntil(10*time.Second, func() bool { return obs.CountState(StateDisconnected) >= 1 }) {
 			run.Inconclusive("no-disconnect")
@@ -374,7 +398,7 @@ func TestVf_C04(t *testing.T) {
 	}
 	var cases []*vfC04Case
 	for _, ins := range []bool{false, true} {
-		for _, ct := range []string{"nil", "rootcas", "skipverify"} {
+		for _, ct := range []string{"nil", "rootcas", "skipverify", "rootcas+hook", "rootcas+connhook"} {
 			for _, sn := range []string{"", "domain", "alt"} {
 				for _, offer := range []string{"absent", "offered", "required"} {
 					if offer == "absent" {
@@ -417,12 +441,20 @@ func TestVf_C04(t *testing.T) {
 			cases = append(cases, &vfC04Case{Insecure: ins, Transport: "wss", Cert: cert})
 		}
 	}
+	// every TCP case also with the traffic logger on (it sits between the session and the socket)
+	for _, c := range append([]*vfC04Case(nil), cases...) {
+		if c.Transport == "tcp" {
+			d := *c
+			d.Logger = true
+			cases = append(cases, &d)
+		}
+	}
 	if !vfkit.Thorough() {
 		// quick: every (setting, behaviour) pair at least once: keep a seed-chosen third, plus all reconnect and websocket cases
 		r := vfkit.Rand(4)
 		var keep []*vfC04Case
 		for _, c := range cases {
-			if c.Reconnect || c.Transport != "tcp" || r.Intn(3) == 0 {
+			if (c.Reconnect && !c.Logger) || c.Transport != "tcp" || r.Intn(4) == 0 {
 				keep = append(keep, c)
 			}
 		}
